@@ -1520,3 +1520,80 @@ Proof.
         -- intros [H1 H2]. split; [exact H1|]. intros [-> ->]. destruct H2 as [H2|H2]; apply H2; reflexivity.
       * rewrite D in E. discriminate.
 Qed.
+
+(* ------------------------------------------------------------------------------------------ *)
+(** * The model satisfies the C02 step predicate (DAGNode share) *)
+
+Lemma idl_eqb_refl : forall l, idl_eqb l l = true.
+Proof. induction l as [|x t IH]; cbn; [reflexivity|]. rewrite Nat.eqb_refl. exact IH. Qed.
+
+Lemma same_state_dlinks : forall s t, same_state s t -> same_dlinks t s = true.
+Proof.
+  intros s t [Hs H]. unfold same_dlinks. rewrite Hs, Nat.eqb_refl. cbn [andb].
+  apply forallb_forall. intros x _. destruct (H x) as [-> ->]. rewrite !idl_eqb_refl. reflexivity.
+Qed.
+
+Lemma firstn_len_app : forall {A} (l t : list A), firstn (length l) (l ++ t) = l.
+Proof. induction l as [|x l IH]; intros t; cbn; [reflexivity|]. rewrite IH. reflexivity. Qed.
+
+Lemma alloc_children_old : forall s nm y, y <> dsize s -> children (alloc s nm) y = children s y.
+Proof. intros s nm y H. unfold alloc. cbn [children]. apply upd_other. exact H. Qed.
+
+Lemma alloc_parents_old : forall s nm y, y <> dsize s -> parents (alloc s nm) y = parents s y.
+Proof. intros s nm y H. unfold alloc. cbn [parents]. apply upd_other. exact H. Qed.
+
+Theorem dstep_prop_C02 : forall cfg s o, DWF s -> dop_in_range s o = true ->
+  prop_C02_dag_step s o (fst (dstep cfg s o)) (is_ok (snd (dstep cfg s o))) = true.
+Proof.
+  intros cfg s o W Hr. unfold prop_C02_dag_step.
+  destruct (is_ok (snd (dstep cfg s o))) eqn:Eok; [reflexivity|].
+  assert (Herr : snd (dstep cfg s o) <> Ok) by (intro E; rewrite E in Eok; discriminate).
+  destruct (is_new o) eqn:En.
+  - destruct o as [ | | | | | | nm pa ca ftp ftc]; try discriminate.
+    pose proof (dstep_DWF cfg s (DNew nm pa ca ftp ftc) W) as W'. pose proof W' as [L' _]. pose proof W as [L _].
+    set (x := dsize s).
+    assert (Hfin : forall s2, same_state (fst (dstep cfg s (DNew nm pa ca ftp ftc))) s2 ->
+              dsize s2 = S x ->
+              (forall y, y <> x -> parents s2 y = parents s y) ->
+              (forall y, y <> x -> children s2 y = children s y \/ children s2 y = children s y ++ [x]) ->
+              forall req, (forall q c, In q (parents s2 c) <-> In q (parents s c) \/ In (q, c) req) ->
+              Nat.eqb (dsize (fst (dstep cfg s (DNew nm pa ca ftp ftc)))) (S x) = true
+              /\ adds_exactly_b s req (fst (dstep cfg s (DNew nm pa ca ftp ftc))) = true
+              /\ forallb (fun y => idl_eqb (children s y)
+                                     (firstn (length (children s y)) (children (fst (dstep cfg s (DNew nm pa ca ftp ftc))) y))
+                                   && idl_eqb (parents s y) (parents (fst (dstep cfg s (DNew nm pa ca ftp ftc))) y)) (dids x) = true).
+    { intros s2 A Hsz HP HC req Hreq. destruct A as [As Al]. split; [rewrite As, Hsz; apply Nat.eqb_refl|]. split.
+      - unfold adds_exactly_b. apply all_pairs_true. intros p c _ _. apply eqb_of_iff.
+        rewrite orb_true_iff, (edge_b_iff _ p c L'), (edge_b_iff s p c L), pair_mem_In.
+        destruct (Al c) as [-> _]. apply Hreq.
+      - apply forallb_forall. intros y Hy. unfold dids in Hy. apply in_seq in Hy.
+        assert (Hyx : y <> x) by lia. destruct (Al y) as [-> ->]. rewrite (HP y Hyx), idl_eqb_refl, andb_true_r.
+        destruct (HC y Hyx) as [-> | ->]; [rewrite firstn_all | rewrite firstn_len_app]; apply idl_eqb_refl. }
+    rewrite (Links_dlinks_ok_b _ L').
+    destruct (dag_new_atomic cfg s nm pa ca ftp ftc W Hr Herr) as [A | [s2 [E2 A]]].
+    + destruct (Hfin (alloc s nm) A eq_refl) with (req := @nil (id * id)) as [H1 [H2 H3]].
+      * intros y Hy. apply alloc_parents_old. exact Hy.
+      * intros y Hy. left. apply alloc_children_old. exact Hy.
+      * intros q c. rewrite alloc_parents_In by exact W. cbn [In]. tauto.
+      * fold x. rewrite H1, H2, H3. reflexivity.
+    + pose proof (set_parents_effect _ _ _ _ _ _ _ E2) as Eff.
+      pose proof (set_parents_ok_check _ _ _ _ _ _ _ E2) as Chk.
+      assert (Hnd : NoDup (ids_of (carg_args pa))).
+      { unfold check_parents in Chk. destruct (carg_cont pa); try discriminate.
+        apply check_parent_loop_ok in Chk. tauto. }
+      assert (Es2 : s2 = assign_parents (alloc s nm) x (ids_of (carg_args pa))).
+      { unfold set_parents in E2. rewrite Chk in E2.
+        destruct (dfault_eqb ftp DPreFail); [discriminate|]. destruct (dfault_eqb ftp DPostFail); [discriminate|].
+        injection E2 as <-. reflexivity. }
+      destruct (Hfin s2 A) with (req := map (fun p => (p, x)) (ids_of (carg_args pa))) as [H1 [H2 H3]].
+      * rewrite Es2, assign_parents_size. reflexivity.
+      * intros y Hy. rewrite Es2, ap_parents_other by exact Hy. apply alloc_parents_old. exact Hy.
+      * intros y Hy. rewrite Es2, ap_children by exact Hnd. rewrite alloc_children_old by exact Hy.
+        destruct (memb y (ids_of (carg_args pa)) && negb (memb y (parents (alloc s nm) x))); [right | left]; reflexivity.
+      * intros q c. rewrite Eff, alloc_parents_In by exact W. rewrite in_map_iff. split.
+        -- intros [H|[-> H]]; [left; exact H | right; exists q; split; [reflexivity | exact H]].
+        -- intros [H|[p [E H]]]; [left; exact H | right; injection E as <- <-; split; [reflexivity | exact H]].
+      * fold x. rewrite H1, H2, H3, orb_true_r. reflexivity.
+  - pose proof (dag_atomic cfg s o W En Herr) as A. apply same_state_dlinks in A.
+    destruct o; try discriminate; exact A.
+Qed.
